@@ -244,6 +244,9 @@ type gcpBalancer struct {
 	unresponsiveDetection bool
 
 	picker balancer.Picker
+	// pickMu makes "find the least busy subconn and add a stream to it" atomic across
+	// all pickers of this balancer. Lock order: pickMu, then mu.
+	pickMu sync.Mutex
 	log    grpclog.LoggerV2
 }
 
